@@ -235,7 +235,7 @@ Lemma receive_gate : forall cfg whole f h s, gate_inv s ->
 Proof.
   intros cfg whole f h s G s1.
   assert (G1 : gate_inv s1).
-  { subst s1. unfold note_close_resp. destruct (f_typ f =? _); apply (gate_same s); auto; reflexivity. }
+  { subst s1. unfold note_close_resp. destruct (_ && _); apply (gate_same s); auto; reflexivity. }
   pose proof (take_waiter_gate cfg whole (length (peer_sent s)) f s1 G1) as G2.
   destruct (take_waiter cfg whole (length (peer_sent s)) f s1) as [s2 rep]. cbn [fst] in G2.
   split; [assumption|].
@@ -322,8 +322,9 @@ Proof.
     + unfold reader_dies; (apply (gate_same s); auto; reflexivity).
     + pose proof (receive_gate cfg false f HBAll s G) as H. cbv zeta in H.
       destruct (take_waiter cfg false (length (peer_sent s)) f _) as [s2 rep]. destruct H as (H2 & H).
-      destruct (rep && _); unfold reader_dies.
+      destruct (rep && _); [|eof_cases]; unfold reader_dies.
       * apply (gate_same s2); auto; reflexivity.
+      * apply (gate_same (run_handler cfg (length (peer_sent s)) f HBAll rep s2)); auto; reflexivity.
       * apply (gate_same (run_handler cfg (length (peer_sent s)) f HBAll rep s2)); auto; reflexivity.
   - (* Close *) unfold step_close. destruct (closed s); (apply (gate_same s); auto; reflexivity).
   - (* ConnStart *) unfold step_conn_start. destruct (phase s) eqn:Hp; try assumption.
